@@ -16,6 +16,7 @@ import (
 // iterations still counts: there is nothing to propagate to). Paths that end in
 // a return or a panic are error exits.
 func c03param(c *core.Ctx, r *core.Report) {
+	r.Explain("R03.param: from the entry of the *ParamNode arm of backtrace.(*Visitor).visit (or of the helper the arm delegates to) the end of the arm is not reachable without crossing a block that reads CallNode.Args() of a call site or iterates over the function Callsites; error exits excepted.")
 	fn := c.Func("analysis/backtrace", "Visitor.visit")
 	if fn == nil {
 		r.Fail("infra.anchor-unresolved", "R03.param|analysis/backtrace.Visitor.visit", "", "not found")
@@ -45,6 +46,47 @@ func c03param(c *core.Ctx, r *core.Report) {
 	}
 	r.Analysed("analysis/backtrace.Visitor.visit")
 	for _, entry := range entries {
+		// the arm may hand the node to a helper of the package (`v.visitParamNode(s, cur, graphNode, ...)`): the rule
+		// is then decided on the helper's body
+		armFn, armEntry := fn, entry
+		for hops := 0; hops < 2; hops++ {
+			hasAttempt, next := false, (*ssa.Function)(nil)
+			for _, b := range armFn.Blocks {
+				if !armEntry.Dominates(b) {
+					continue
+				}
+				for _, ins := range b.Instrs {
+					call, ok := ins.(*ssa.Call)
+					if !ok {
+						continue
+					}
+					sc := call.Call.StaticCallee()
+					if sc == nil {
+						continue
+					}
+					if sc.Name() == "Args" && sc.Signature.Recv() != nil && core.ShortType(sc.Signature.Recv().Type()) == "*dataflow.CallNode" {
+						hasAttempt = true
+					}
+					if sc.Blocks != nil && c.FuncPkgRel(sc) == "analysis/backtrace" {
+						for _, a := range call.Call.Args {
+							if core.ShortType(a.Type()) == "*dataflow.ParamNode" {
+								next = sc
+							}
+						}
+					}
+				}
+			}
+			if hasAttempt || next == nil {
+				break
+			}
+			armFn, armEntry = next, next.Blocks[0]
+		}
+		checkParamArm(c, r, armFn, armEntry, entry)
+	}
+}
+
+func checkParamArm(c *core.Ctx, r *core.Report, fn *ssa.Function, entry, reportAt *ssa.BasicBlock) {
+	{
 		attempt := map[*ssa.BasicBlock]bool{}
 		nAttempt := 0
 		for _, b := range fn.Blocks {
@@ -85,9 +127,22 @@ func c03param(c *core.Ctx, r *core.Report) {
 				escape = b
 				break
 			}
+			if ret, isRet := b.Instrs[len(b.Instrs)-1].(*ssa.Return); isRet && entry == fn.Blocks[0] {
+				// the arm is a helper function: a normal return is the end of the arm, an error return is an exit
+				errExit := false
+				for _, res := range ret.Results {
+					if k, isC := res.(*ssa.Const); res.Type().String() == "error" && !(isC && k.IsNil()) {
+						errExit = true
+					}
+				}
+				if !errExit {
+					escape = b
+					break
+				}
+			}
 			st = append(st, b.Succs...)
 		}
-		r.Check(escape == nil && nAttempt >= 2, "R03.param", "analysis/backtrace.Visitor.visit|ParamNode-arm|propagates-to-call-sites", c.Pos(entry.Instrs[0].Pos()),
+		r.Check(escape == nil && nAttempt >= 2, "R03.param", "analysis/backtrace.Visitor.visit|ParamNode-arm|propagates-to-call-sites", c.Pos(reportAt.Instrs[0].Pos()),
 			"every path through the arm propagates the parameter to the argument of the call site in context or iterates over all call sites",
 			"a path through the *ParamNode arm reaches the end of the arm without reading the argument of any call site and without iterating over the function's call sites: a parameter reached with a call stack whose top is not a call to this function is silently not propagated, and everything upstream of it disappears from the traces")
 	}
